@@ -49,6 +49,7 @@ type (
 		Vars   []Binder
 		Body   Expr
 		Hints  [][]Expr // @try(e1, e2, …): candidate witnesses for an existential goal
+		Pats   [][]Expr // @pat(e1, e2, …): a trigger (multi-pattern) for the quantifier when it is assumed
 	}
 	ECond struct{ C, A, B Expr }
 )
@@ -226,8 +227,9 @@ func (p *parser) parseExpr() Expr {
 				q.Vars = append(q.Vars, Binder{n, typ})
 			}
 			for p.accept("@") {
-				if kw := p.ident(); kw != "try" {
-					panic(fmt.Errorf("expected @try, found @%s", kw))
+				kw := p.ident()
+				if kw != "try" && kw != "pat" {
+					panic(fmt.Errorf("expected @try or @pat, found @%s", kw))
 				}
 				p.expect("(")
 				var hs []Expr
@@ -238,7 +240,11 @@ func (p *parser) parseExpr() Expr {
 					}
 					p.expect(",")
 				}
-				q.Hints = append(q.Hints, hs)
+				if kw == "try" {
+					q.Hints = append(q.Hints, hs)
+				} else {
+					q.Pats = append(q.Pats, hs)
+				}
 			}
 			if p.accept("::") {
 				break
@@ -521,6 +527,7 @@ type Contract struct {
 	FuncName string // fully qualified SSA name
 	Pkg      string
 	Requires []*Clause
+	Assumes  []*Clause // assumed when the function is entered, not asked of callers: a data-structure invariant established elsewhere (listed)
 	Ensures  []*Clause
 	Assigns  []string // raw designators; nil means unspecified; ["\\nothing"] means none
 	HasAssgn bool
@@ -660,7 +667,7 @@ func (cs *ContractSet) LoadContractFile(path, pkgPath string, assumed bool) erro
 			if assumed {
 				cs.Assumed[full] = true
 			}
-		case "requires", "ensures":
+		case "requires", "ensures", "assumes":
 			if cur == nil {
 				return fail(fmt.Errorf("%s outside func block", word))
 			}
@@ -670,6 +677,8 @@ func (cs *ContractSet) LoadContractFile(path, pkgPath string, assumed bool) erro
 			}
 			if word == "requires" {
 				cur.Requires = append(cur.Requires, c)
+			} else if word == "assumes" {
+				cur.Assumes = append(cur.Assumes, c)
 			} else {
 				cur.Ensures = append(cur.Ensures, c)
 			}
